@@ -46,7 +46,7 @@ CHECKS = {
           "A request is accepted iff its store returned Ok; ids named by a foreign request while unknown to the store are unspecified.",
           "DESIGN.md section 4 C11"),
   "C12": ("exploration",
-          "stateful property-based testing: full observable snapshot (lookups, markers, ~25-80 queries over every index plan, ten index counts, extra tables) compared before/after every failing store in histories biased towards failures after in-transaction effects; plus fault injection at system-call level (ptrace): each chosen ftruncate/pwrite/writev/mremap/msync/... call of a history run in a child process is made to fail with ENOSPC/EIO and the child's snapshot after the failing store is compared with the reference snapshot before it",
+          "stateful property-based testing: full observable snapshot (lookups, markers, ~25-80 queries over every index plan, ten index counts, extra tables) compared before/after every failing store in histories biased towards failures after in-transaction effects; plus fault injection at system-call level (ptrace): each chosen ftruncate/pwrite/writev/mremap/msync/... call of a history run in a child process is made to fail with ENOSPC/EIO the child snapshots its still open store right after the failing store (must equal the reference snapshot before it) and again after the rest of the history (must equal a reference run of the history without that step: no latent damage), half of these histories on ext4",
           "Generated histories; snapshot(before) == snapshot(after) for every store that returns an error, whether the error is one of the store's own refusals or an injected I/O failure. Open known finding: a failed LMDB meta-page write leaves the environment in LMDB's fatal state (KNOWN-FINDING line); other violations are still reported.",
           "event_bytes excluded (orphan bytes of failed stores are unreachable). Injected failures need ptrace (linux/x86_64); where it is unavailable that part reports inconclusive (exit 2).",
           "DESIGN.md section 4 C12"),
@@ -61,7 +61,7 @@ CHECKS = {
           "Granularity = named points; only the LMDB writer lock is modelled (anything else blocking => inconclusive, exit 2); no file growth during a case.",
           "DESIGN.md section 4 C14"),
   "C15": ("exploration",
-          "stateful property-based testing with a forced-layout trick (PROT_NONE page mapped with MAP_FIXED_NOREPLACE behind the mapping so a moving remap is deterministic); oracle = address identity and byte equality of fresh lookups for every held reference after every step; 30% of the sequences on a block file system (ext4), the rest on tmpfs",
+          "stateful property-based testing with a forced-layout trick (PROT_NONE page mapped with MAP_FIXED_NOREPLACE behind the mapping so a moving remap is deterministic); steps also remove events, submit refused deletion requests and let a second thread grow the map while this one looks events up (the writer held right after the remap); oracle = address identity and byte equality of fresh lookups for every held reference after every step; 30% of the sequences on a block file system (ext4), the rest on tmpfs",
           "Generated sequences of store / take-reference / grow steps (also from a second thread); every held reference must keep its address and bytes. On the pinned tree the mapping moves at growth: recorded as an open known finding (KNOWN-FINDING line), other violations of the property are still reported.",
           "Address identity of a fresh lookup stands in for validity of the old reference; the stale reference is never dereferenced.",
           "DESIGN.md section 4 C15"),
@@ -76,7 +76,7 @@ CHECKS = {
           "get_event_by_id defines 'retrievable'.",
           "DESIGN.md section 4 C17"),
   "C18": ("exploration",
-          "stateful property-based testing: independently computed target sets for remove/vanish (incl. gift-wrap near misses) compared with the change of the retrievable set; markers/extra tables unchanged; resubmission and ephemeral clauses",
+          "stateful property-based testing: independently computed target sets for remove/vanish (incl. gift-wrap near misses, vanish with the key's own stored request) compared with the change of the retrievable set; markers/extra tables unchanged; resubmission and ephemeral clauses; vanish in stores of 5,300-70,000 events; injected system-call failures (a removal / vanish that reports success must have had its full effect)",
           "Generated histories; per Remove/Vanish the retrievable-set difference equals the reference target set, deletion markers and extra tables are unchanged, removed events are accepted again, ephemeral events are never retrievable.",
           "vanish() receives an event of which only the pubkey matters.",
           "DESIGN.md section 4 C18"),
